@@ -155,6 +155,12 @@ def gen_configs(tier, rng):
                     nl = rng.choice([1, 2, 3, max(1, W // 2), W, W + 1, 2 * W]) if W <= 24 else rng.choice([1, 3, 7, 20])
                     ranks = list(range(W)) if W <= wmax_all else sorted(set([0, W - 1] + rng.sample(range(W), 3)))
                     cfgs.append((W, k, colocate, fam, nl, ranks))
+    for W in (260, 320):
+        for k in [d for d in divisors(W) if d in (1, 2, 4, 5, 13, 16, W // 2, W)]:
+            for colocate in (True, False):
+                fam = rng.choice(FAMS)
+                ranks = sorted(set([0, 1, 255, 256, 257, 258, W - 2, W - 1] + rng.sample(range(W), 4)))
+                cfgs.append((W, k, colocate, fam, rng.choice([1, 3, 7, 20]), ranks))
     return cfgs
 
 
